@@ -1,6 +1,7 @@
 """property id -> check function(tier, seed, replay) -> exit status"""
 import props_store as ps
 import props_filter as pf
+import props_quant as pq
 
 NOTE_STORE = ('theorems are about the tile model coq/Model/{Store,Coll}.v; the model is tied to the code by running '
               'the extracted model and the implementation on the same histories and comparing every step '
@@ -39,4 +40,8 @@ def C15(tier, seed, replay):
     return pf.filter_property('C15', tier, seed, replay)
 
 
-REGISTRY = {'C13': C13, 'C14': C14, 'C15': C15, 'C07': C07, 'C01': C01, 'C02': C02, 'C09': C09, 'C16': C16}
+def C12(tier, seed, replay):
+    return pq.check(tier, seed, replay)
+
+
+REGISTRY = {'C12': C12, 'C13': C13, 'C14': C14, 'C15': C15, 'C07': C07, 'C01': C01, 'C02': C02, 'C09': C09, 'C16': C16}
